@@ -93,6 +93,15 @@ def cases(tier):
                                             "doc": gen.base_doc(c2, version=version), "pos": pos, "kind": kind, "notation": notation, "required": req,
                                             "default": DEFAULTS[ks] if dflt else None, "has_default": dflt, "key": key,
                                             "also": ["Sib"], "ctx": route}}
+                            if tier == "thorough":
+                                # the same model as JSON request body and as JSON response of an operation: the three states on the wire
+                                d3 = copy.deepcopy(doc)
+                                mref = {"$ref": "#/components/schemas/M"}
+                                d3["paths"] = {"/m": {"post": {"operationId": "postM", "requestBody": {"required": True, "content": {"application/json": {"schema": mref}}},
+                                                               "responses": {"200": {"description": "d", "content": {"application/json": {"schema": mref}}}}}}}
+                                yield {"labels": labels + ["via-endpoint"], "payload": {
+                                    "doc": d3, "pos": "endpoint", "kind": kind, "notation": notation, "required": req,
+                                    "default": DEFAULTS[ks] if dflt else None, "has_default": dflt, "key": key}}
                         else:
                             path = "/r/{p}" if pos == "path" else "/r"
                             param = {"name": "p", "in": pos, "required": req, "schema": sch}
@@ -290,6 +299,59 @@ def _param_one(p, res, sb, ep, key):
     return viol
 
 
+def _endpoint(p, res, sb):
+    """The holder model as JSON request body and JSON response: absent / null / value as they appear on the wire."""
+    import json
+
+    import httpx
+
+    from checks.c02 import err_class, find_class
+    cls = find_class(res, sb, "M")
+    if cls is None or not res.endpoints:
+        return None
+    key, viol = p["key"], []
+    mod = wire.endpoint_module(sb, res.endpoints[0])
+    unset = sb.mod("types").UNSET
+    sample = K.samples(p["kind"])[0][1]
+    states = [("value", {"p": copy.deepcopy(sample), "other": 1})]
+    if not p["required"]:
+        states.append(("absent", {"other": 1}))
+    if p["notation"] != "none":
+        states.append(("null", {"p": None, "other": 1}))
+    for state, inst in states:
+        try:
+            body = cls.from_dict(copy.deepcopy(inst))
+        except Exception:  # noqa: BLE001   (decoding is judged by the model position)
+            continue
+        cap = wire.Capture(lambda request, inst=inst: httpx.Response(200, json=inst))
+        for variant in ("sync_detailed", "asyncio_detailed"):
+            r = wire.call(mod, variant, lambda: wire.make_client(sb, cap), cap, {"body": body})
+            if not r["ok"] or not r["requests"]:
+                viol.append({"oracle": "endpoint-call-raises", "site": "endpoint", "key": f"{key}/{state}/{err_class(r.get('exc'))}", "detail": f"{variant} with p {state} raised {r.get('exc')!r}"})
+                continue
+            try:
+                sent = json.loads(r["requests"][0]["content"])
+            except ValueError:
+                sent = "<not json>"
+            if not K.json_eq(sent, inst) and not (state == "absent" and p["has_default"]):
+                viol.append({"oracle": f"{state}-on-the-wire", "site": "endpoint", "key": key, "detail": f"{variant}: body with p {state} sent as {sent!r}, expected {inst!r}"})
+            parsed = r["value"].parsed
+            got = getattr(parsed, "p", "<no attribute>")
+            if state == "absent" and got is not unset and not p["has_default"]:
+                viol.append({"oracle": "absent-readback", "site": "endpoint", "key": key, "detail": f"{variant}: response without p parsed to {got!r}"})
+            if state == "null" and got is not None:
+                viol.append({"oracle": "null-decode", "site": "endpoint", "key": key, "detail": f"{variant}: response with p null parsed to {got!r}"})
+            if state == "value" and (got is unset or got is None):
+                viol.append({"oracle": "value-decode", "site": "endpoint", "key": key, "detail": f"{variant}: response with p={sample!r} parsed to {got!r}"})
+    seen, uniq = set(), []
+    for v in viol:
+        k = (v["oracle"], v["key"])
+        if k not in seen:
+            seen.add(k)
+            uniq.append(v)
+    return uniq
+
+
 def run_case(p):
     res = gen.generate(p["doc"])
     if res.crash:
@@ -298,7 +360,7 @@ def run_case(p):
         return {"outcome": "rejected", "nontrivial": False}
     with Sandbox(res.pkg_tree()) as sb:
         try:
-            viol = _model(p, res, sb) if p["pos"] == "model" else _param(p, res, sb)
+            viol = _model(p, res, sb) if p["pos"] == "model" else (_endpoint(p, res, sb) if p["pos"] == "endpoint" else _param(p, res, sb))
         except ImportError as exc:
             return {"outcome": f"import-fails:{type(exc).__name__}", "nontrivial": False}
     if viol is None:
